@@ -576,8 +576,12 @@ class C11(Spec):
                 yield {'kind': 'stack', 'arrs': arrs,
                        'ops': [{'op': 'concat', 'j': 9, 'dim': dim, 'ks': list(range(k)), 'expect': None}]}
 
+        # the expression pinned by tests/pipeline/test_pipeline_data.py::test_pipeline_data_3d (known finding C11-KF1)
+        yield {'kind': 'two-lists', 'arrs': [self.mk_arr([3, 2, 4], s0=0, fs=(1728, 1))],
+               'ops': [get({'t': 'tup', 'items': [['L', [0, 2]], ['L', [0]]]})]}
+
         # (iv) random chains over the whole grammar
-        nchain = 2500 if quick else 60000
+        nchain = 2500 if quick else 250000
         for _ in range(nchain):
             arr = self.rand_arr(rng)
             shape = list(arr['shape'])
@@ -596,7 +600,7 @@ class C11(Spec):
             yield {'kind': 'chain', 'arrs': [arr], 'ops': ops}
 
         # random slice-then-concat programs (pieces from unit-step cuts, possibly nested)
-        nsc = 600 if quick else 15000
+        nsc = 600 if quick else 50000
         for _ in range(nsc):
             arr = self.rand_arr(rng, maxn=6)
             nd = len(arr['shape'])
@@ -899,12 +903,10 @@ class C11(Spec):
 
     def shrink_candidates(self, c):
         # fewer operations
-        if len(c['ops']) > 1:
+        if len(c['ops']) > 1 and c['ops'][-1]['op'] != 'concat':
             cc = copy.deepcopy(c)
             cc['ops'] = cc['ops'][:-1]
             yield cc
-            if c['ops'][0]['op'] == 'get' and c['ops'][0]['k'] == 0 and all(o.get('k') != 0 or i == 0 for i, o in enumerate(c['ops'])):
-                pass
         # plain annotations
         for a_i, a in enumerate(c['arrs']):
             if a['s0'] != 0:
@@ -915,9 +917,9 @@ class C11(Spec):
                 cc = copy.deepcopy(c)
                 cc['arrs'][a_i]['base'] = 0
                 yield cc
-        # simpler index entries
+        # simpler index entries (not for split/concat programs: their slices must stay a partition)
         for n, op in enumerate(c['ops']):
-            if op['op'] != 'get':
+            if op['op'] != 'get' or any(o['op'] == 'concat' for o in c['ops']):
                 continue
             items = op['idx']['items']
             for j, it in enumerate(items):
